@@ -31,7 +31,9 @@ def cases(draw, tier):
         src["names"][k] = (src["names"][k] + "_" + "h" * 400)[:L]
         if len(set(n[:255] for n in src["names"])) != len(src["names"]):
             src["names"][k] = ("%d" % k + src["names"][k])[:L]
-    return {"src": src, "outname_len": draw(st.sampled_from([0, 0, 0, 0, 60, 150, 185, 190, 193, 195, 200, 230, 250]))}
+    return {"src": src, "outname_len": draw(st.sampled_from([0, 0, 0, 0, 60, 150, 185, 190, 193, 195, 200, 230, 250])),
+            # records without residues in the input that kalign aligns (it drops them): positions among the other records
+            "empties": draw(st.lists(st.integers(0, len(src["names"])), min_size=1, max_size=3)) if draw(st.integers(0, 3)) == 0 else []}
 
 
 def strategy(tier):
@@ -138,7 +140,11 @@ def check(case):
         lines = ["read 0 1 %s" % fp, "finalise 0", "dump 0"]
     else:
         names = src["names"]
-        fp = wd.write(kal.fasta_bytes(names, src["seqs"]), ".fa")
+        in_names, in_seqs = list(names), list(src["seqs"])
+        for k, pos in enumerate(sorted(case.get("empties") or [], reverse=True)):
+            in_names.insert(min(pos, len(in_names)), "empty_record_%d" % k)
+            in_seqs.insert(min(pos, len(in_seqs)), "")
+        fp = wd.write(kal.fasta_bytes(in_names, in_seqs), ".fa")
         lines = ["read 0 1 %s" % fp, "run 0 %d %d -1 -1 -1" % (src["threads"], src["type"]), "dump 0"]
     outs = {}
     import os
@@ -167,6 +173,8 @@ def check(case):
     kind = gen.expected_kind(tr)
     L = len(tr[0])
     cl = ["source=" + src["source"], "kind=%s" % kind]
+    if case.get("empties") and src["source"] != "synthetic":
+        cl.append("empty_input_records")
     if L % 60 == 0:
         cl.append("width%60==0")
     if L > 60:
@@ -237,6 +245,20 @@ def extra(tier, seed, stats):
             out.append({"case": c, "detail": dict(r["detail"], sweep_item=list(it)), "kind": r.get("kind")})
         elif r.get("nontrivial"):
             stats.nontrivial.add("sweep:%s:%s:%s" % tuple(it))
+    # empty records in the input that kalign aligns, at every position (3 blocks of 60 columns)
+    import random as _r
+    rnd = _r.Random(seed + 3)
+    fam = gen.expand_family(rnd.randrange(2 ** 32), gen.AA, 5, 140, 0.15, 0.03, 0.0)
+    for kind_fam in (fam, gen.expand_family(rnd.randrange(2 ** 32), gen.NUC, 6, 130, 0.1, 0.03, 0.0)):
+        n = len(kind_fam)
+        for empties in [[p] for p in range(n + 1)] + [[0, n // 2], [1, 1, n], [0, 0, 0]]:
+            c = {"src": {"names": ["seq%c" % (65 + i) for i in range(n)], "seqs": kind_fam, "type": 5, "threads": 1, "source": "kalign"},
+                 "outname_len": 0, "empties": empties}
+            r = check(c)
+            stats.record(c, r)
+            stats.classes["empty_records_enumerated"] += 1
+            if r["status"] == "violation":
+                out.append({"case": c, "detail": r["detail"], "kind": r.get("kind")})
     widths = [2300000] if tier == "quick" else [900000, 1700000, 2300000, 3400000, 5000000]
     for i, W in enumerate(widths):
         for kind in (("protein",) if tier == "quick" else ("protein", "dna")):
